@@ -406,3 +406,74 @@ theorem shortcut_sound (es es' : List (Name × Entry)) (hwf : (Entry.dir es).WF)
 
 end
 end Grog
+
+namespace Grog
+
+/-! ### what `writeDir` leaves in the CAS -/
+
+theorem Cas.get_write_of_get {c : Cas} {k : Digest} {v : Bytes} (d : Digest) (b : Bytes) (h : c.get k = some v) :
+    (c.write d b).get k = some v := by
+  unfold Cas.write
+  split
+  · exact h
+  · simp only [Cas.get] at h ⊢
+    rw [List.lookup_append]
+    simp [h]
+
+theorem Cas.get_write_self (c : Cas) (d : Digest) (b : Bytes) :
+    (c.write d b).get d = some b ∨ ∃ b', c.get d = some b' ∧ (c.write d b).get d = some b' := by
+  unfold Cas.write
+  cases h : c.lookup d with
+  | some b' => exact Or.inr ⟨b', h, by simp [Cas.get, h]⟩
+  | none =>
+    left
+    simp only [Cas.get]
+    rw [List.lookup_append]
+    simp [h, List.lookup]
+
+/-- `Agrees c l`: wherever `c` already has one of the digests of `l`, it has the content `l` wants there (true when `c`
+    is content-addressed and the hash is collision free on the contents involved). -/
+def Agrees (c : Cas) (l : List (Digest × Bytes)) : Prop := ∀ u ∈ l, ∀ b', c.get u.1 = some b' → b' = u.2
+
+theorem writeBlobs_get (l : List (Digest × Bytes)) :
+    ∀ (c : Cas), Agrees c l → (∀ u ∈ l, ∀ w ∈ l, u.1 = w.1 → u.2 = w.2) →
+      (∀ u ∈ l, (writeBlobs c l).get u.1 = some u.2) ∧ (∀ k v, c.get k = some v → (writeBlobs c l).get k = some v) := by
+  induction l with
+  | nil => intro c _ _; exact ⟨fun u hu => by simp at hu, fun k v h => h⟩
+  | cons hd t ih =>
+    intro c hag hcons
+    obtain ⟨d, b⟩ := hd
+    have hstep : (c.write d b).get d = some b := by
+      rcases Cas.get_write_self c d b with h | ⟨b', h1, h2⟩
+      · exact h
+      · have := hag (d, b) (by simp) b' h1
+        simpa [this] using h2
+    have hag' : Agrees (c.write d b) t := by
+      intro u hu b' hb'
+      by_cases hk : u.1 = d
+      · rw [hk, hstep] at hb'
+        have := hcons (d, b) (by simp) u (by simp [hu]) hk.symm
+        simp at hb' this; rw [← hb', this]
+      · -- the entry was already there
+        have : c.get u.1 = some b' := by
+          unfold Cas.write at hb'
+          split at hb'
+          · exact hb'
+          · simp only [Cas.get] at hb' ⊢
+            rw [List.lookup_append] at hb'
+            cases hl : c.lookup u.1 with
+            | some x => simpa [hl] using hb'
+            | none =>
+              have hne : (u.1 == d) = false := by simpa using hk
+              simp [hl, List.lookup, hne] at hb'
+        exact hag u (by simp [hu]) b' this
+    obtain ⟨h1, h2⟩ := ih (c.write d b) hag' (fun u hu w hw => hcons u (by simp [hu]) w (by simp [hw]))
+    simp only [writeBlobs]
+    refine ⟨?_, fun k v h => h2 k v (Cas.get_write_of_get d b h)⟩
+    intro u hu
+    simp only [List.mem_cons] at hu
+    rcases hu with rfl | hu
+    · exact h2 d b hstep
+    · exact h1 u hu
+
+end Grog
